@@ -60,10 +60,11 @@ pub fn dump_logs(args: &[String], seed: u64) -> i32 {
         }
     }
     let cover_counts = CoverCounts::compute(&cover_bases);
+        let sweep = crate::plan::sweep_counts(&corpus, tier);
     let specs = if prop == "C17" {
-        planner.c17_stage_b(&corpus, &census_g, &kp, &cover_counts)
+        planner.c17_stage_b(&corpus, &census_g, &kp, &cover_counts, &sweep)
     } else {
-        planner.c16_stage_b(&corpus, &census_g, &kp, &cover_counts)
+        planner.c16_stage_b(&corpus, &census_g, &kp, &cover_counts, &sweep)
     };
     // an evenly spread sample of the plan, so every block kind is represented
     let stride = (specs.len() / count.max(1)).max(1);
@@ -164,6 +165,7 @@ pub fn scan(args: &[String]) -> i32 {
             steer_min_beyond: false,
             rec_states: false,
             deep: false,
+            want_inv: false,
         })
         .collect();
     let cfg = PoolConfig { workers: 16, chunk: if op == Op::IsEuclidean { 64 } else { 1 }, run_budget: Duration::from_secs(budget), deadline: None, thorough: false };
